@@ -122,8 +122,28 @@ def _replace_uuid_printer():
     return 'registered'
 
 
+class K1:
+    """K1, K2, K3: printed through three PREDICATE printers registered when this module is imported (the list of predicates is shared state that
+    every print of a value without a type printer walks)"""
+    def __repr__(self):
+        return '<fallback repr of %s>' % type(self).__name__
+
+
+class K2(K1):
+    pass
+
+
+class K3(K1):
+    pass
+
+
+for _k in (K1, K2, K3):
+    register_pretty(predicate=lambda v, _k=_k: type(v) is _k)(lambda v, ctx, _k=_k: prettyprinter.pretty_call(ctx, _k))
+
+
 WIDE = {'b': [1, 2, 3, 4, 5, 6], 'a': 'some text here'}
 SCENARIOS.update({
+    'S15-predicate-printers-from-two-threads': ([[(K3(), {}), (K2(), {})], [(K2(), {}), (K3(), {})]], (PKG,), False),
     'S9-user-registers-class-while-other-prints-subclass': ([[('call', _register_late), (Late(1), {})], [(LateSub(2), {}), ([LateSub(3)], {})]], (PKG,) + STDLIB_FILES, False),
     'S10-user-registers-predicate-while-other-prints': ([[('call', _register_pred), (Pred(), {})], [([Pred()], {}), (U, {})]], (PKG,), False),
     'S14-user-replaces-a-printer-then-prints': ([[(U, {})], [('call', _replace_uuid_printer), (U, {}), ([U], {})]], (PKG,), False),
@@ -147,7 +167,7 @@ def _query_and_register_enum():
 OP_POOL = [
     (U, {}), ([U, U], {}), ({'k': U}, {'width': 20}), (Color.RED, {}), ([Color.RED], {}), (pathlib.PurePosixPath('/a/b c'), {}),
     (pathlib.PureWindowsPath('C:/x'), {}), (PART, {}), ([PART], {}), (MPROXY, {}), (MyList([1, U]), {}), (Sub(2), {}), (Base(3), {}),
-    (time.gmtime(0), {}), (LONG, {'width': 40}), (COMMENTED, {'width': 30}), (WIDE, {}), (Late(5), {}), (LateSub(6), {}), (Pred(), {}),
+    (K3(), {}), ([K2(), K3(), K1()], {}), (time.gmtime(0), {}), (LONG, {'width': 40}), (COMMENTED, {'width': 30}), (WIDE, {}), (Late(5), {}), (LateSub(6), {}), (Pred(), {}),
     ('call', _register_late), ('call', _register_pred), ('call', _narrow_defaults), ('call', _replace_uuid_printer), ('call', _query_uuid),
     ('call', _query_and_register_enum),
 ]
@@ -167,7 +187,7 @@ def scenario(name):
     return _RANDOM_CACHE[name]
 
 
-SHARED_STATE_FUNCS = {'is_registered', 'register_pretty', 'register_pretty.<locals>.decorator', 'pretty_python_value', '_is_registered',
+SHARED_STATE_FUNCS = {'_repr_pretty', 'is_registered', 'register_pretty', 'register_pretty.<locals>.decorator', 'pretty_python_value', '_is_registered',
                       'singledispatch.<locals>.dispatch', 'singledispatch.<locals>.register', 'singledispatch.<locals>.wrapper', '_find_impl', '_compose_mro'}
 
 
@@ -381,7 +401,7 @@ def run_shard(sh):
                 others = [b for b in range(len(progs)) if b != a]
                 if len(progs) == 2:
                     # quick: the two long scenarios that touch no registry state on first use are sampled 1:6
-                    stride = (12 if quick else 3) if name.startswith(('S4', 'S5')) else (4 if quick and name.startswith(('S9', 'S10', 'S13', 'S14')) else 1)
+                    stride = (12 if quick else 3) if name.startswith(('S4', 'S5')) else (4 if quick and name.startswith(('S9', 'S10', 'S13', 'S14')) else (2 if quick and name.startswith('S15') else 1))
                     if rand:
                         stride = 25 if quick else 5
                     for k in range(1, n_a + 1, stride):
@@ -392,7 +412,7 @@ def run_shard(sh):
                 # A preempted at every k, B switched back at each of its call boundaries (catches A's delayed writes that
                 # only a LATER call of B can observe)
                 if len(progs) == 2 and len(progs[others[0]]) > 1:
-                    stride2 = (40 if name.startswith('S5') else 5) if quick else 1
+                    stride2 = (40 if name.startswith('S5') else (10 if name.startswith('S15') else 5)) if quick else 1
                     if rand:
                         stride2 = 40 if quick else 6
                     for jb in range(1, len(progs[others[0]])):
